@@ -65,6 +65,13 @@ func Special(g *G, thor bool) []Program {
 						g.loadClass("r0", cx, mx)
 						if sh[2] != "r0" {
 							g.loadClass("r1", cy, my)
+							if cx[1:] == "fin" && cy[1:] == "fin" && g.Bool() {
+								// same magnitude: exact cancellation (or doubling), the finite route to a zero sum
+								g.Emit(M{"op": "Copy", "z": "r1", "x": "r0"})
+								if cx[0] != cy[0] {
+									g.Emit(M{"op": "Neg", "z": "r1", "x": "r1"})
+								}
+							}
 						}
 						z := sh[0]
 						p := g.Pick(0, 0, 2, 7)
@@ -76,6 +83,47 @@ func Special(g *G, thor bool) []Program {
 						g.Emit(M{"op": op, "z": z, "x": sh[1], "y": sh[2]})
 						flush()
 					}
+				}
+			}
+		}
+	}
+	// exact cancellation of finite operands (the finite route to a zero sum) x six modes x sign
+	// combinations x receiver histories that leave a stale inexact accuracy / sign behind
+	for m := 0; m < 6; m++ {
+		for _, op := range []string{"Add", "Sub", "FMA"} {
+			for sg := 0; sg < 2; sg++ {
+				for hist := 0; hist < 4; hist++ {
+					d := g.Digits(1 + g.R.Intn(25))
+					e := g.Exp()
+					xneg := sg == 1
+					g.Load("r0", xneg, d, e, 0, g.Mode())
+					yneg := !xneg
+					if op == "Sub" {
+						yneg = xneg
+					}
+					g.Load("r1", yneg, d, e, 0, g.Mode())
+					z := "r2"
+					switch hist {
+					case 0: // stale Below/Above from a rounding SetPrec
+						g.Load("r2", g.Bool(), "123456789", g.Exp(), 0, m)
+						g.Emit(M{"op": "SetPrec", "z": "r2", "p": g.Pick(0, 3, 5)})
+					case 1: // stale negative sign, exact
+						g.LoadSpecial("r2", g.PickS("zero", "inf"), true, g.Pick(0, 4), m)
+					case 2: // receiver is an operand
+						z = g.PickS("r0", "r1")
+						g.Emit(M{"op": "SetMode", "z": z, "m": m})
+					default:
+						g.Emit(M{"op": "New", "z": "r2"})
+						g.Emit(M{"op": "SetMode", "z": "r2", "m": m})
+					}
+					if op == "FMA" {
+						// x*1 + y
+						g.Load("r3", false, "1", 1, 0, g.Mode())
+						g.Emit(M{"op": "FMA", "z": z, "x": "r0", "y": "r3", "u": "r1"})
+					} else {
+						g.Emit(M{"op": op, "z": z, "x": "r0", "y": "r1"})
+					}
+					flush()
 				}
 			}
 		}
